@@ -330,6 +330,93 @@ def check_exprkind(run, filesets, info, tag):
     return compared, bad
 
 
+def gen_alias_unit(rng):
+    """TYPE declarations over a small pool of names: enumerations, structures, elementary-based types, subranges, arrays,
+    strings and aliases of one another (chains, aliases of undeclared names, now and then a duplicate or a cycle), in a
+    random order and in one or several TYPE blocks"""
+    pool = ["Ka", "Kb", "Kc", "Kd", "Ke", "Kf", "Kg"]
+    names = rng.sample(pool, rng.randint(2, 6))
+    if rng.random() < 0.08:
+        names.append(rng.choice(names))
+    decls = []
+    for n in names:
+        k = rng.random()
+        if k < 0.15:
+            decls.append("%s : (x%d, y%d);" % (n, rng.randrange(9), rng.randrange(9)))
+        elif k < 0.27:
+            decls.append("%s : STRUCT f : INT; END_STRUCT;" % n)
+        elif k < 0.37:
+            decls.append("%s : INT := %d;" % (n, rng.randrange(9)))
+        elif k < 0.43:
+            decls.append("%s : INT (1..9);" % n)
+        elif k < 0.48:
+            decls.append("%s : ARRAY [1..3] OF INT;" % n)
+        elif k < 0.52:
+            decls.append("%s : STRING[8];" % n)
+        else:
+            decls.append("%s : %s;" % (n, _case(rng, rng.choice([t for t in pool if t != n] + ["Nowhere"]))))
+    rng.shuffle(decls)
+    out = []
+    while decls:
+        k = rng.randint(1, len(decls))
+        out.append("TYPE\n  " + "\n  ".join(decls[:k]) + "\nEND_TYPE")
+        decls = decls[k:]
+    return "\n".join(out) + "\n"
+
+
+def check_datadecl(run, filesets, info, tag):
+    """xform_resolve_late_bound_data_decl against Model/DataDecl.v, on the declarations as written (the transformation applied
+    directly) and after xform_toposort_declarations (as the pipeline applies it)"""
+    if not filesets or not info.get("extract_ok"):
+        return 0, 0
+    cases = []
+    for i, fs in enumerate(filesets):
+        for srt in (False, True):
+            cases.append({"id": len(cases), "op": "datadecl", "sort": srt, "files": [[n, hexs(t)] for n, t in fs], "_i": i})
+    res = vlib.run_impl(cases, run.workdir, per_case_timeout=30)
+    lines = []
+    for ci, r in enumerate(res):
+        i = cases[ci]["_i"]
+        if "panic" in r or "abort" in r:
+            text = "\n".join(t for _, t in filesets[i])
+            run.violation("impl-violates-property", "the alias resolution of data types crashed (%s): %s" % (
+                str(r.get("panic") or r.get("abort"))[:160], text[:200].replace("\n", " ")), {"input": {"text": text, "files": [[n, t] for n, t in filesets[i]]}})
+            continue
+        if "before" not in r or r.get("parse_errs"):
+            continue
+        lines.append(("datadecl", ci, r["before"]))
+    model = vlib.run_model(lines, run.workdir)
+    compared = bad = 0
+    for op, ci, facts in lines:
+        i = cases[ci]["_i"]
+        m = model.get(str(ci))
+        r = res[ci]
+        text = "\n".join(t for _, t in filesets[i])
+        rep = {"input": {"text": text, "files": [[n, t] for n, t in filesets[i]]}, "declarations": facts, "sorted_first": cases[ci]["sort"]}
+        if not m or m[0] not in ("ok", "err"):
+            bad += 1
+            run.violation("correspondence", "the alias-resolution model gave no answer (%r) for: %s" % (m, text[:160].replace("\n", " ")), rep, no_input=True)
+            continue
+        compared += 1
+        run.cov["traces_validated_against_impl"] += 1
+        run.count(("datafacts", cases[ci]["sort"], tuple(filesets[i])), True, "data-decl-facts:%s:%s" % (tag, "sorted" if cases[ci]["sort"] else "as-written"))
+        if "after" in r:
+            kinds = [a.split(",")[1] for f, a in zip(facts, r["after"]) if f.startswith("DA,")]
+            got = ("ok", kinds)
+        else:
+            got = ("err", impl_list(r.get("diags", [])))
+        if m[0] == "ok":
+            want = ("ok", m[1].split() if len(m) > 1 and m[1] else [])
+        else:
+            want = ("err", model_list(m[1] if len(m) > 1 and m[1] else "-"))
+        if want != got:
+            bad += 1
+            run.cov["disagreements_checked"] += 1
+            run.violation("correspondence", "the alias resolution gives %r, the model computes %r (%s): %s" % (
+                got, want, "after sorting" if cases[ci]["sort"] else "as written", text[:200].replace("\n", " ")), rep, no_input=True)
+    return compared, bad
+
+
 TYPE_POOL = ["Ta", "Tb", "Tc", "Td", "Te"]
 
 
